@@ -72,6 +72,20 @@ func c20Replay(i int, raw json.RawMessage) Result {
 		}
 		return Result{Detail: "harness: generated template does not parse: " + v.Src + ": " + err.Error()}
 	}
+	if i%2 == 1 {
+		// the walk visits what the source says, whatever walks there were before: a visitor abandons a walk half way
+		// (and the program recovers) before the walk that is judged
+		func() {
+			defer func() { recover() }()
+			n := 0
+			utils.Walk(t, utils.VisitorFunc(func(vc utils.VisitorContext, node jet.Node) {
+				if n++; n > 3 {
+					panic("visitor gives up")
+				}
+				vc.Visit(node)
+			}))
+		}()
+	}
 	vis := &c20Visitor{seen: map[jet.Node]int{}}
 	var panicked interface{}
 	func() {
